@@ -1,8 +1,8 @@
 (* C20 -- Reported diagram metadata is accurate
 
    Model: node ids are list positions (contiguous from the root at 0, len = size); depths are maintained by
-   raise_depth; find_node goes through the integer key.  PARTIAL: is_subgraph / is_isomorphic and summary()
-   are not modelled; they are decided by recomputation in the run.
+   raise_depth; find_node goes through the integer key; ObsFacts.is_subgraph_b models is_subgraph (after fix 087feea).
+   PARTIAL: summary() is not modelled; it is decided by recomputation in the run.
 
    This file contains only restatements closed by `exact` (statements produced by Coq's own
    `Check` of the library lemma) plus non-vacuity Examples, each followed by Print Assumptions. *)
@@ -10,7 +10,7 @@ From Coq Require Import List Bool Arith NArith Lia Relations Permutation.
 Import ListNotations.
 From BB Require Import BN Brute SpaceFacts TrapFacts PercolateFacts AttractorFacts Diagram Invariants Checks Filter
   Strict PetriNet Control Meta FilterFacts PetriNetFacts TrappistFacts DiagramStruct DiagramSem1 DiagramCache
-  DiagramDepth DiagramComplete Termination ControlFacts MetaFacts Candidates StrictFacts MinExpandFacts CandidatesFacts SymbolicTest SymbolicTestFacts Signed ReductionFacts ControlFacts2 Main.
+  DiagramDepth DiagramComplete Termination ControlFacts MetaFacts Candidates StrictFacts MinExpandFacts CandidatesFacts SymbolicTest SymbolicTestFacts Signed ReductionFacts ControlFacts2 Main Blocks BlocksFacts ObsFacts OwnerFacts CandidatesTerm.
 
 Theorem C20_find_node_exact : forall (N : net) (d : sd) (X : list (option bool)) (i : nat), SWF N d -> length X = nvars N -> find_node d X = Some i <-> i < size d /\ n_space (get d i) = X.
 Proof. exact find_node_exact. Qed.
@@ -40,6 +40,10 @@ Proof. exact raise_depth_spec. Qed.
 Theorem C20_space_key_inj : forall x y : space, length x = length y -> space_key x = space_key y -> x = y.
 Proof. exact space_key_inj. Qed.
 
+(* node-set and edge-set inclusion *)
+Theorem C20_is_subgraph_spec : forall (N : net) (a b : sd), SWF N a -> SWF N b -> NoStubEdges a -> NoStubEdges b -> Rooted a -> is_subgraph_b a b = true <-> (forall X : space, In X (spaces a) -> In X (spaces b)) /\ (forall e : edge, In e (sd_edges a) -> exists e' : edge, In e' (sd_edges b) /\ n_space (get b (e_src e')) = n_space (get a (e_src e)) /\ n_space (get b (e_dst e')) = n_space (get a (e_dst e))).
+Proof. exact is_subgraph_b_spec. Qed.
+
 Print Assumptions C20_find_node_exact.
 Print Assumptions C20_find_node_none.
 Print Assumptions C20_step_extends.
@@ -49,3 +53,4 @@ Print Assumptions C20_depth_is_max.
 Print Assumptions C20_depth_attained.
 Print Assumptions C20_raise_depth_spec.
 Print Assumptions C20_space_key_inj.
+Print Assumptions C20_is_subgraph_spec.
